@@ -18,6 +18,7 @@ viol   = impl ≠ ref   (the property itself, decided without Lean; tags reeval-
 """
 import atexit
 import hashlib
+import io
 import os
 import shutil
 import tempfile
@@ -196,11 +197,25 @@ def _build_operand(kind, ds, q):
     return g, lambda old, new: _mutate_in_place(g, old, new)
 
 
+_PROC = {}
+
+
+def _parse_input_kind(text):
+    """parseQuery takes str | bytes | a text stream: which one a text is handed over as (direct entry points only)"""
+    return ("str", "bytes", "stream")[(len(text) // 2) % 3]
+
+
 def _call(api, target, query, kw):
     """hand the query (text or prepared Query) to rdflib through one of the public entry points"""
     from rdflib.plugins.sparql.processor import SPARQLProcessor, SPARQLResult
+
+    def proc():      # ONE processor object per graph object, used for every call of the case's history on that graph
+        if id(target) not in _PROC or _PROC[id(target)][0] is not target:
+            _PROC.clear()
+            _PROC[id(target)] = (target, SPARQLProcessor(target))
+        return _PROC[id(target)][1]
     if api == "processor-instance":
-        return target.query(query, processor=SPARQLProcessor(target), **kw)
+        return target.query(query, processor=proc(), **kw)
     if api == "result-class":
         return target.query(query, result=SPARQLResult, **kw)
     if api == "no-store-provided":
@@ -208,12 +223,13 @@ def _call(api, target, query, kw):
     if api in ("processor-direct", "evalQuery-direct", "translate-direct"):
         ns = kw.get("initNs") or dict(target.namespaces())
         if api == "processor-direct":
-            return SPARQLResult(SPARQLProcessor(target).query(query, {}, ns, **({"base": kw["base"]} if "base" in kw else {})))
+            return SPARQLResult(proc().query(query, {}, ns, **({"base": kw["base"]} if "base" in kw else {})))
         from rdflib.plugins.sparql.algebra import translateQuery
         from rdflib.plugins.sparql.evaluate import evalQuery
         from rdflib.plugins.sparql.parser import parseQuery
         if isinstance(query, str):
-            query = translateQuery(parseQuery(query), kw.get("base"), ns)
+            src = {"str": query, "bytes": query.encode("utf-8"), "stream": io.StringIO(query)}[_parse_input_kind(query)]
+            query = translateQuery(parseQuery(src), kw.get("base"), ns)
         return SPARQLResult(evalQuery(target, query, {}, kw.get("base"))) if api == "evalQuery-direct" else target.query(query)
     return target.query(query, **kw)
 
@@ -305,6 +321,11 @@ def run_impl(case):
     st["api_" + api] = 1
     st["operand_" + kind] = 1
     st["spelling_" + spelling] = 1
+    st["data_dataset" if _needs_dataset(ds, q) else "data_plain_graph"] = 1
+    if ds.get("union"):
+        st["data_default_union"] = 1
+    if any(not ts for _n, ts in ds["named"]):
+        st["data_empty_named_graph"] = 1
     text_s = _spell(text, spelling)
     kw = {}
     if spelling == "pname-initNs":
@@ -340,6 +361,8 @@ def run_impl(case):
                 if use_text:
                     got = G.read_rdflib_result(_call(api, g, text_s, kw))
                     st["api_text"] = 1
+                    if api in ("evalQuery-direct", "translate-direct"):
+                        st["parse_input_" + _parse_input_kind(text_s)] = 1
                     if len(rounds) > 1:
                         G.read_rdflib_result(_call(api, g, pq, {}))   # first use of the prepared object
                 else:
@@ -531,5 +554,5 @@ def _kind_matcher(kind):
 # what is left of it (un-projected sub-select variables, variables of a nested OPTIONAL's condition) is the same defect
 # as K1 — `_vars` is not the set of variables the solution at hand binds — and is matched with it.
 MATCHERS = {"vars_may_not_must": _kind_matcher({"K1", "K3"}), "vars_values_missing": _kind_matcher({"K2"}),
-            # C04-K3: EXISTS patterns outside `Alg.existsOK` (nested-group filter / OPTIONAL condition on an outer variable)
+            # C04-K4: EXISTS patterns outside `Alg.existsOK` (nested-group filter / OPTIONAL condition on an outer variable)
             "exists_not_substitution": _kind_matcher({"exists-unsupported"})}
